@@ -68,6 +68,14 @@ def explore(core, rng, tier, seed, search=False):
         xs = [rng.choice(pool) for _ in range(rng.randrange(0, 8))]
         L = "[" + ",".join(str(bits(x)) for x in xs) + "]"
         sc += ["sum f64 " + L, "product f64 " + L]
+    # long argument lists (an unrolled / multi-accumulator summation only engages beyond some dozens of arguments)
+    for n in (16, 31, 32, 33, 40, 64, 100, 257):
+        for _ in range(3):
+            xs = [rng.choice([1e16, 1.0, 1.0, 1.0, -1e16, 0.1, 3.0]) for _ in range(n)]
+            xs[0] = 1e16
+            sc.append("sum f64 [" + ",".join(str(bits(x)) for x in xs) + "]")
+            ys = [rng.choice([1.0000001, 0.9999999, 1.5, 2.0, 0.5, 3.0]) for _ in range(n)]
+            sc.append("product f64 [" + ",".join(str(bits(x)) for x in ys) + "]")
     scripts.append(sc)
     sc = []
     for _ in range(60):
